@@ -400,4 +400,37 @@ theorem Flat.not_cyclic {E : Env} {S : KVs} {n : String} {v : Val} (h : Flat E S
   · exact h.acyclic _ (Or.inl rfl) hc
   · exact h.acyclic c (Or.inr h1) h2
 
+/-! ## the executable flatten specification agrees with `Flat` -/
+
+theorem flattenF_sound (E : Env) : ∀ (fuel : Nat) (S : KVs) (n : String) (v : Val),
+    flattenF E fuel S n = .ok v → Flat E S n v := by
+  intro fuel
+  induction fuel with
+  | zero => intro S n v h; simp [flattenF] at h
+  | succ fuel ih =>
+    intro S n v h
+    simp only [flattenF] at h
+    split at h <;> try cases h
+    rename_i svc hsvc
+    split at h
+    · simp only [Out.ok.injEq] at h; subst h; exact Flat.leaf hsvc (by assumption)
+    · rename_i e he
+      split at h <;> try cases h
+      rename_i ref file hp
+      split at h <;> try cases h
+      rename_i S' hb
+      split at h <;> try cases h
+      rename_i b hrec
+      split at h <;> try cases h
+      rename_i m hm
+      exact Flat.step hsvc he hp hb (ih S' ref _ hrec) hm
+
+theorem flattenF_complete (E : Env) {S : KVs} {n : String} {v : Val} (h : Flat E S n v) :
+    ∃ fuel, flattenF E fuel S n = .ok v := by
+  induction h with
+  | leaf h1 h2 => exact ⟨1, by simp [flattenF, h1, h2]⟩
+  | step h1 h2 h3 h4 h5 h6 ih =>
+    obtain ⟨fuel, hf⟩ := ih
+    exact ⟨fuel + 1, by simp [flattenF, h1, h2, h3, h4, hf, h6]⟩
+
 end CV.Extends
